@@ -221,8 +221,10 @@ def r154_inverse_pairs(ctx, dists):
                     om = main_return(outer)
                     if om is None:
                         raise Unsupported(f'{odc.name}.{outer.name} has {len(computing_returns(outer))} computed returns')
-                    mid = tr.expr(r.value, {inner.args.args[1].arg: v}, inner_dc.name)
-                    res = tr.expr(om, {outer.args.args[1].arg: mid}, odc.name)
+                    from ..algebra import path_env
+                    mid = tr.expr(r.value, path_env(tr, inner, r, {inner.args.args[1].arg: v}, inner_dc.name), inner_dc.name)
+                    oret = computing_returns(outer)[0]
+                    res = tr.expr(om, path_env(tr, outer, oret, {outer.args.args[1].arg: mid}, odc.name), odc.name)
                     ok = res.equals(v)
                 except Unsupported as e:
                     ctx.note(f'R15.4: {c} {direction} return #{k + 1} not expressible in the algebra ({e}); not decided')
